@@ -63,6 +63,7 @@ package node
 //@   ensures[resp] ret0 == nil || (len(ret0.Frame.Peers) < 2147483648 && (forall r int :: __in(r, ret0.Frame.PeerSets) ==> len(ret0.Frame.PeerSets[r]) < 2147483648))
 
 //@ func (n *Node) fastForward() error
+//@   safety on
 //@   requires n != nil && n.core != nil && n.core.hg != nil && n.core.validator != nil && n.proxy != nil && n.core.promises != nil
 //@   call processAcceptedInternalTransactions assume[sizes-bounded] len(resp.Block.Body.InternalTransactionReceipts) < 1000000000 && len(n.core.validators.Peers) < 1000000000 && len(n.core.peers.Peers) < 1000000000
 //@   call Restore assert[restore-after-check] __called("fastForward") && __lastret("fastForward", 0) == nil
@@ -71,6 +72,7 @@ package node
 // Commit (C02, C09)
 
 //@ func (c *core) signBlock(block *hg.Block) (hg.BlockSignature, error)
+//@   safety on
 //@   requires c != nil && c.hg != nil && c.validator != nil && c.validator.Key != nil && block != nil && block.Signatures != nil
 //@   modifies block.Signatures[*], hg.G_blocks(c.hg.Store), hg.G_bodies(c.hg.Store), hg.G_fault(c.hg.Store), hg.G_lastBlock(c.hg.Store)
 //@   ensures[signed] ret1 == nil ==> hg.BlockSignedBy(c.validator.Key, block, ret0.Signature) && ret0.Index == block.Body.Index
@@ -102,6 +104,7 @@ package node
 //@   loop 2 modifies c.promises[*]
 
 //@ func (c *core) commit(block *hg.Block) error
+//@   safety on
 //@   requires c != nil && c.hg != nil && c.validator != nil && c.validator.Key != nil && block != nil && block.Signatures != nil && c.selfBlockSignatures != nil && c.selfBlockSignatures.Items() != nil
 //@   requires c.validators != nil && c.validators.WF() && c.peers != nil && c.peers.WF() && c.promises != nil && len(c.validators.Peers) < 1000000000 && len(c.peers.Peers) < 1000000000
 //@   registers Hashgraph.commitCallback
@@ -138,6 +141,7 @@ package node
 //@   call insertEventAndRunConsensus assert[signed-first] __lastret("Sign", 0) == nil && __arg(0) == event
 
 //@ func (c *core) addTransactions(txs [][]byte)
+//@   safety on
 //@   requires c != nil
 //@   modifies c.transactionPool
 //@   ensures[append] len(c.transactionPool) == old(len(c.transactionPool)) + len(txs) && (forall k int :: 0 <= k && k < old(len(c.transactionPool)) ==> __seqeq(c.transactionPool[k], old(c.transactionPool)[k])) && (forall k int :: 0 <= k && k < len(txs) ==> __seqeq(c.transactionPool[old(len(c.transactionPool))+k], txs[k]))
@@ -160,6 +164,7 @@ package node
 // A submitted transaction only joins the pool, whatever the node's state: it creates no event and touches nothing
 // else (C05: accepted = pending; C17: a non-babbling node's DAG is not changed by submissions).
 //@ func (n *Node) addTransaction(tx []byte)
+//@   safety on
 //@   requires n != nil && n.core != nil
 //@   modifies n.core.transactionPool
 //@   ensures[queued] len(n.core.transactionPool) == old(len(n.core.transactionPool)) + 1 && __seqeq(n.core.transactionPool[len(n.core.transactionPool)-1], tx) && (forall k int :: 0 <= k && k < old(len(n.core.transactionPool)) ==> __seqeq(n.core.transactionPool[k], old(n.core.transactionPool)[k]))
@@ -215,6 +220,7 @@ package node
 // The core is born with a ready hashgraph, empty pools, an empty promise table and head table (what Node.standing asks
 // of it, given a validator with a key and non-nil peer sets).
 //@ func newCore(validator *Validator, peers *peers.PeerSet, genesisPeers *peers.PeerSet, store hg.Store, proxyCommitCallback proxy.CommitCallback, maintenanceMode bool, logger *logrus.Entry) *core
+//@   safety on
 //@   scope entry
 //@   requires validator != nil && validator.Key != nil && peers != nil && genesisPeers != nil
 //@   ensures[born] ret0 != nil && __fresh(ret0) && ret0.validator == validator && ret0.hg != nil && ret0.hg.ConsensusReady() && ret0.selfBlockSignatures != nil && ret0.heads != nil && ret0.promises != nil && ret0.peers == peers && ret0.peerSelector != nil && ret0.validators == genesisPeers && len(ret0.transactionPool) == 0 && len(ret0.internalTransactionPool) == 0 && ret0.seq == -1 && ret0.head == ""
@@ -225,6 +231,7 @@ package node
 // A new node satisfies the standing invariants (given a configuration, a validator with a key, peer sets and an
 // application proxy).
 //@ func NewNode(conf *config.Config, validator *Validator, peers *peers.PeerSet, genesisPeers *peers.PeerSet, store hg.Store, trans net.Transport, proxy proxy.AppProxy) *Node
+//@   safety on
 //@   scope entry
 //@   requires conf != nil && validator != nil && validator.Key != nil && peers != nil && genesisPeers != nil && proxy != nil
 //@   ensures[standing] ret0 != nil && ret0.standing()
@@ -274,6 +281,7 @@ package node
 //@   requires n.standing() && cmd != nil
 
 //@ func (n *Node) processRPC(rpc net.RPC)
+//@   safety on
 //@   ensures[standing] n.standing()
 //@   requires n.standing()
 //@   call processEagerSyncRequest   assert[gate-eager] __lastret("GetState", 0) == _state.Babbling
@@ -313,6 +321,7 @@ package node
 //@   requires n != nil
 
 //@ func (n *Node) checkSuspend()
+//@   safety on
 //@   requires n != nil && n.core != nil && n.core.hg != nil && n.conf != nil && n.core.validators != nil
 //@   ensures[too-many] len(old(n.core.hg.UndeterminedEvents)) - old(n.initialUndeterminedEvents) > old(n.conf.SuspendLimit) * len(old(n.core.validators.ByPubKey)) ==> __called("Suspend")
 //@   ensures[evicted]  old(n.core.hg.LastConsensusRound) != nil && old(n.core.removedRound) > 0 && old(n.core.removedRound) > old(n.core.acceptedRound) && old(*n.core.hg.LastConsensusRound) >= old(n.core.removedRound) ==> __called("Suspend")
@@ -320,6 +329,7 @@ package node
 // After a bootstrap or a fast-forward the core continues its own chain from the creator's last stored event: head is
 // that event's hash and seq its index, or ("", -1) when the node has no event (or is not in the repertoire) yet.
 //@ func (c *core) setHeadAndSeq() error
+//@   inline
 //@   requires c != nil
 //@   modifies c.head, c.seq, hg.G_miss(c.hg.Store)
 //@   ensures[failed] ret0 != nil ==> c.head == old(c.head) && c.seq == old(c.seq)
@@ -328,6 +338,7 @@ package node
 
 // A join/leave request enters the internal-transaction pool at the end, behind everything already pending.
 //@ func (c *core) addInternalTransaction(tx hg.InternalTransaction) *joinPromise
+//@   safety on
 //@   requires c != nil && c.promises != nil
 //@   modifies c.promises[*], c.internalTransactionPool
 //@   ensures[queued] len(c.internalTransactionPool) == old(len(c.internalTransactionPool)) + 1 && __eq(c.internalTransactionPool[len(c.internalTransactionPool)-1], tx) && (forall k int :: 0 <= k && k < old(len(c.internalTransactionPool)) ==> __eq(c.internalTransactionPool[k], old(c.internalTransactionPool)[k]))
